@@ -141,7 +141,7 @@ func (d vDef) query() string {
 	case "D":
 		return fmt.Sprintf(`cdata:"MARK%d;"`, d.N)
 	case "L":
-		return fmt.Sprintf(`ltime:>=%s`, vT0.Add(time.Duration(d.N)*10*time.Second).Format("2006-01-02T15:04:05Z"))
+		return fmt.Sprintf(`ltime:"%s:"`, vT0.Add(time.Duration(d.N)*10*time.Second-5*time.Second).Format("2006-01-02 150405"))
 	case "I", "M":
 		if len(d.S) == 0 {
 			return "id:-1"
